@@ -88,6 +88,57 @@ type Out struct {
 
 var seq int
 
+// bases holds, per scenario, the world frozen at the point where the explored part starts
+// (built once per worker process; every execution runs on a fork, see world.Base).
+var bases = map[string]*world.Base{}
+
+func baseFor(sc Scn, dir string) (*world.Base, error) {
+	if b := bases[sc.Name]; b != nil {
+		return b, nil
+	}
+	w, err := world.New(dir+"-base", world.Options{Gap: 3}) // gap limit 3: an import derives 3+3 addresses instead of 20+20
+	if err != nil {
+		return nil, err
+	}
+	w.UseOracleChain()
+	// history before the explored part (direct calls, scheduler inactive)
+	setup := []string{"x.ab", "d", "x.pc0", "d", "x.a2b", "d"}
+	for _, ev := range setup {
+		if ok, err := w.Apply(ev); err != nil || !ok {
+			return nil, fmt.Errorf("setup %s: %v %v", ev, ok, err)
+		}
+	}
+	if sc.Resume {
+		// the task was accepted (and persisted) by the previous process: every fork is the restart
+		w.I.W.VerifInitTaskChan()
+		switch sc.Task {
+		case "remove":
+			if err := w.RemoveB(world.PassB); err != nil {
+				return nil, err
+			}
+		case "import":
+			if err := w.ImportC(0); err != nil {
+				return nil, err
+			}
+		}
+	}
+	for i := 0; i < sc.Tips; i++ {
+		t := "x.e"
+		if i == 1 {
+			t = "x.pa"
+		}
+		if ok, err := w.Apply(t); err != nil || !ok {
+			return nil, fmt.Errorf("tip %d: %v %v", i, ok, err)
+		}
+	}
+	b, err := w.Freeze()
+	if err != nil {
+		return nil, err
+	}
+	bases[sc.Name] = b
+	return b, nil
+}
+
 // unfunded wallets imported to put pressure on the task queue (valid BIP-39 sentences)
 var extraMnemonics = []string{
 	"legal winner thank year wave sausage worth useful legal winner thank yellow",
@@ -104,47 +155,18 @@ func runOnce(sc Scn, prefix []int) (*vshim.Result, *sched.Exec, error) {
 		seam = dbseam.Wrap(u, dbseam.NoPlan)
 		return seam
 	}
-	w, err := world.New(dir, world.Options{Wrap: wrap, Gap: 3}) // gap limit 3: an import derives 3+3 addresses instead of 20+20
+	b, err := baseFor(sc, dir)
 	if err != nil {
 		return nil, nil, err
 	}
-	w.UseOracleChain()
 	masswallet.VerifImportBatch = 1000
 	if sc.Batch > 0 {
 		masswallet.VerifImportBatch = sc.Batch
 	}
 	defer func() { masswallet.VerifImportBatch = 1000 }()
-	// history before the explored part (direct calls, scheduler inactive)
-	setup := []string{"x.ab", "d", "x.pc0", "d", "x.a2b", "d"}
-	for _, ev := range setup {
-		if ok, err := w.Apply(ev); err != nil || !ok {
-			return nil, nil, fmt.Errorf("setup %s: %v %v", ev, ok, err)
-		}
-	}
-	if sc.Resume {
-		w.I.W.VerifInitTaskChan()
-		switch sc.Task {
-		case "remove":
-			if err := w.RemoveB(world.PassB); err != nil {
-				return nil, nil, err
-			}
-		case "import":
-			if err := w.ImportC(0); err != nil {
-				return nil, nil, err
-			}
-		}
-		if err := w.Restart(); err != nil {
-			return nil, nil, err
-		}
-	}
-	for i := 0; i < sc.Tips; i++ {
-		t := "x.e"
-		if i == 1 {
-			t = "x.pa"
-		}
-		if ok, err := w.Apply(t); err != nil || !ok {
-			return nil, nil, fmt.Errorf("tip %d: %v %v", i, ok, err)
-		}
+	w, err := b.Fork(wrap)
+	if err != nil {
+		return nil, nil, err
 	}
 	closesBefore := 0
 	if seam != nil {
